@@ -375,6 +375,30 @@ def directed(rng):
         js["scenario"]["core_standing_time"] = {"times": [{"start": [22, 0], "end": [5, 0]}], "no_drive_days": [6]}
         for ls in ("balanced", "greedy"):
             out.append((js, "flex_window", {"LOAD_STRAT": ls, "ALLOW_NEGATIVE_SOC": True}))
+    # D12: distributed, stationary battery (efficiency != 0.95, minimum charging power) at an opportunity-station connector, steps
+    # without a vehicle there and an arrival within the charging horizon (round-3 seed C02-s8: the battery is charged through a
+    # virtual vehicle built from its data)
+    for k12 in range(2):
+        start = datetime.datetime.fromisoformat("2023-01-02T08:00:00" + scen.TZ)
+        n12, iv = 8, rng.choice([15, 30])
+        js = {"scenario": {"start_time": scen.iso(start), "interval": iv, "n_intervals": n12},
+              "components": {
+                  "vehicle_types": {"bus": {"name": "bus", "capacity": 200, "charging_curve": [[0, 150], [0.8, 150], [1, 15]], "battery_efficiency": 0.9}},
+                  "vehicles": {"bus_0": {"vehicle_type": "bus", "soc": 0.9, "desired_soc": 1.0}},
+                  "grid_connectors": {"GC1": {"max_power": rng.choice([100, 200]), "cost": {"type": "fixed", "value": 0.3}}},
+                  "charging_stations": {"CS_bus_0_opps": {"max_power": 150, "min_power": 0, "parent": "GC1"}},
+                  "batteries": {"BAT1": {"parent": "GC1", "capacity": rng.choice([100, 150]), "charging_curve": [[0, 60], [1, 60]], "soc": 0.2,
+                                         "efficiency": rng.choice([0.8, 0.7]), "min_charging_power": rng.choice([0, 5])}},
+                  "photovoltaics": {}},
+              "events": {"fixed_load": {}, "local_generation": {}, "grid_operator_signals": [],
+                         "vehicle_events": [{"signal_time": scen.iso(start), "start_time": scen.iso(start + datetime.timedelta(minutes=iv * 4)),
+                                             "vehicle_id": "bus_0", "event_type": "arrival",
+                                             "update": {"connected_charging_station": "CS_bus_0_opps", "soc_delta": -0.5, "desired_soc": 1.0,
+                                                        "estimated_time_of_departure": scen.iso(start + datetime.timedelta(minutes=iv * 6))}},
+                                            {"signal_time": scen.iso(start), "start_time": scen.iso(start + datetime.timedelta(minutes=iv * 6)),
+                                             "vehicle_id": "bus_0", "event_type": "departure",
+                                             "update": {"estimated_time_of_arrival": scen.iso(start + datetime.timedelta(days=1))}}]}}
+        out.append((js, "distributed", {}))
     return out
 
 
@@ -410,6 +434,29 @@ def pool(seed, tier, strategies=None, n_fast=None, n_slow=None, inject=False, fe
                 json.dump({"default_grid_operator": {"january": {"start": "2020-01-01", "end": "2020-01-31",
                                                                   "windows": {"MV": [["08:00", "09:00"]]}}}}, open(p, "w"))
                 recs.append(run_record(js, "peak_load_window", {"time_windows": p, "ALLOW_NEGATIVE_SOC": True}, time_limit=30))
+        if inject and "schedule" in strategies:
+            # D13: schedule (collective) inside the core standing time with less scheduled power than the vehicle's minimum charging
+            # power while the station has no minimum (round-3 seed C17-s7: the retry queue must still empty)
+            rng13 = random.Random("pool-d13/%d" % seed)
+            for k13 in range(2):
+                start13 = datetime.datetime.fromisoformat("2023-01-02T22:00:00" + scen.TZ)
+                n13 = 6
+                js = {"scenario": {"start_time": scen.iso(start13), "interval": 60, "n_intervals": n13,
+                                   "core_standing_time": {"times": [{"start": [22, 0], "end": [5, 0]}], "no_drive_days": [6]}},
+                      "components": {
+                          "vehicle_types": {"t": {"name": "t", "capacity": 50, "charging_curve": [[0, 11], [1, 11]],
+                                                  "min_charging_power": rng13.choice([3, 4])}},
+                          "vehicles": {"v%d" % i: {"vehicle_type": "t", "soc": 0.3, "desired_soc": 0.9, "connected_charging_station": "cs%d" % i,
+                                                   "estimated_time_of_departure": scen.iso(start13 + datetime.timedelta(hours=7))}
+                                       for i in range(k13 + 1)},
+                          "grid_connectors": {"GC1": {"max_power": 50, "cost": {"type": "fixed", "value": 0.1}}},
+                          "charging_stations": {"cs%d" % i: {"max_power": 11, "min_power": 0, "parent": "GC1"} for i in range(k13 + 1)},
+                          "batteries": {}, "photovoltaics": {}},
+                      "events": {"fixed_load": {}, "local_generation": {}, "vehicle_events": [],
+                                 "grid_operator_signals": [{"signal_time": scen.iso(start13), "start_time": scen.iso(start13 + datetime.timedelta(hours=h)),
+                                                            "grid_connector_id": "GC1", "target": t_, "window": True}
+                                                           for h, t_ in ((0, rng13.choice([2, 1.5])), (2, 5), (4, rng13.choice([2.5, 1])))]}}
+                recs.append(run_record(js, "schedule", {"LOAD_STRAT": "collective", "ALLOW_NEGATIVE_SOC": True}, time_limit=15))
         # intervals that do not divide an hour (round-3 seed C18-s8: per-hour scaling of the aggregates)
         rng_odd = random.Random("pool-odd/%d" % seed)
         for k_odd in range(3 if tier == "quick" else 9):
